@@ -2,6 +2,7 @@ package checks
 
 import (
 	"fmt"
+	"strings"
 	"time"
 
 	"github.com/trustbloc/sidetree-go/pkg/api/operation"
@@ -22,7 +23,7 @@ func init() {
 		ID:          "C18",
 		Rule:        "cases: internal documents built from validated keys (6 types x purpose subsets, consistent type/material pairs incl. Ed25519 2018/2020 with JWK -> base58 / multibase), services (all endpoint shapes, extra members) and also-known-as; all 2^5 combinations of {@base, method context, key-context override, include published, include unpublished}; resolution states incl. deactivated, unpublished, zero times; operation lists of 0..12 entries with (time, number) drawn from {0..3}^2 (ties and disagreeing orders dominate) and duplicated canonical references. Oracle: a small reference transformer written from the statement builds the complete expected document and metadata; operation lists are checked as sorted by (time, number) and as a permutation of the de-duplicated input. distinct = (option combination, key types, list-length and duplicate pattern).",
 		Assumptions: []string{"reference transformer in the harness", "own base58 encoder"},
-		Require:     []string{"transforms", "keys", "services", "published-lists", "unpublished-lists", "ed25519-conversions", "generic-transformer", "retained-results-rechecked"},
+		Require:     []string{"transforms", "keys", "services", "published-lists", "unpublished-lists", "ed25519-conversions", "generic-transformer", "retained-results-rechecked", "transformation-infos"},
 		Run:         runC18,
 	})
 }
@@ -56,6 +57,13 @@ func runC18(r *fw.Runner) {
 			}
 			for _, re := range rechecks {
 				re()
+			}
+		})
+	}
+	for b := 0; b < r.N(10, 200); b++ {
+		r.Case("transformation-info", func(c *fw.Case) {
+			for i := 0; i < 40; i++ {
+				c18Info(c)
 			}
 		})
 	}
@@ -495,4 +503,73 @@ func c18Generic(c *fw.Case) {
 		}
 	}
 	c.Sig("generic", incPub, incUnpub, len(pubIn))
+}
+
+// c18Info compares the transformation info (id, published flag, canonical id, equivalent ids) computed for a state with the rule
+// documented for it: published -> canonical id = namespace[:canonical reference]:suffix, equivalent ids = the canonical id followed by
+// namespace:reference:suffix for every equivalent reference; unpublished -> id = namespace[:label]:suffix[:initial state], equivalent
+// ids = the short form (when an initial state is given) and the domain-hinted form namespace:domain:label:suffix (when label and
+// domain are given and the label does not already contain the domain).
+func c18Info(c *fw.Case) {
+	r := c.Rng
+	ns := fw.Pick(r, []string{"did:sidetree", "did:ion", "did:orb", "x"})
+	suffix := "EiSuffix" + fmt.Sprint(r.Intn(1000))
+	c.Count("transformation-infos", 1)
+	c.Evals(1)
+	if r.Bool() {
+		rm := &protocol.ResolutionModel{CanonicalReference: fw.Pick(r, []string{"", "uEiCanon1", "uEiC:with:colons"})}
+		for i, n := 0, r.Intn(4); i < n; i++ {
+			rm.EquivalentReferences = append(rm.EquivalentReferences, fmt.Sprintf("hl:uEi%d:ref%d", r.Intn(100), i))
+		}
+		id := fw.Pick(r, []string{ns + ":" + suffix, ns + ":uEiOther:" + suffix, "anything"})
+		refsBefore := append([]string(nil), rm.EquivalentReferences...)
+		got := docutil.GetTransformationInfoForPublished(ns, id, suffix, rm)
+		canon := ns + ":" + suffix
+		if rm.CanonicalReference != "" {
+			canon = ns + ":" + rm.CanonicalReference + ":" + suffix
+		}
+		eq := []interface{}{canon}
+		for _, ref := range refsBefore {
+			eq = append(eq, ns+":"+ref+":"+suffix)
+		}
+		want := map[string]interface{}{"id": id, "published": true, "canonicalId": canon, "equivalentId": eq}
+		c.Sig("info-published", rm.CanonicalReference != "", len(refsBefore))
+		if g, _ := oracle.Generic(got); !oracle.JSONEqual(g, want) {
+			c.Failf("transformation-info:published", map[string]interface{}{"namespace": ns, "id": id, "suffix": suffix, "canonical_reference": rm.CanonicalReference, "equivalent_references": refsBefore, "got": g, "expected": want},
+				"transformation info of a published state differs from the documented rule (%s)", describeDiff(want, g))
+		}
+		return
+	}
+	label := fw.Pick(r, []string{"", "", "interim", "uEiLabel", "https:example.com:uEiLabel"})
+	domain := fw.Pick(r, []string{"", "", "https:example.com", "ipfs"})
+	jcs := fw.Pick(r, []string{"", "eyJjcmVhdGUiOnt9fQ"})
+	got := docutil.GetTransformationInfoForUnpublished(ns, domain, label, suffix, jcs)
+	short := ns + ":" + suffix
+	if label != "" {
+		short = ns + ":" + label + ":" + suffix
+	}
+	var eq []interface{}
+	if jcs != "" {
+		eq = append(eq, short)
+	}
+	if label != "" && domain != "" {
+		if strings.Contains(label, domain) {
+			eq = append(eq, short)
+		} else {
+			eq = append(eq, ns+":"+domain+":"+label+":"+suffix)
+		}
+	}
+	id := short
+	if jcs != "" {
+		id = short + ":" + jcs
+	}
+	want := map[string]interface{}{"id": id, "published": false}
+	if len(eq) > 0 {
+		want["equivalentId"] = eq
+	}
+	c.Sig("info-unpublished", label != "", domain != "", jcs != "", strings.Contains(label, domain))
+	if g, _ := oracle.Generic(got); !oracle.JSONEqual(g, want) {
+		c.Failf("transformation-info:unpublished", map[string]interface{}{"namespace": ns, "domain": domain, "label": label, "suffix": suffix, "initial_state": jcs, "got": g, "expected": want},
+			"transformation info of an unpublished state differs from the documented rule (%s)", describeDiff(want, g))
+	}
 }
